@@ -149,6 +149,26 @@ fn main() {
                 }
                 cases.extend(m);
             }
+            // …and its driver's rows of the construction stream over the real MMIO transport (legacy and
+            // modern) against the register-level device: the queue areas the device latched are the ones the
+            // driver allocated (a driver whose used ring the device looks for elsewhere never sees a completion)
+            let mine_mmio: &[&str] = match prop.as_str() {
+                "C19" => &["input", "sound", "socket"],
+                _ => mine,
+            };
+            if !mine_mmio.is_empty() {
+                let mut m = c08_mmio::run_mmio(&ctx).0;
+                m.retain(|c| c.tags.iter().any(|t| mine_mmio.iter().any(|d| t.starts_with(&format!("{}-mmio-", d)))));
+                for c in m.iter_mut() {
+                    c.oracle_failures.retain(|f| f.starts_with("[C06] "));
+                    for f in c.oracle_failures.iter_mut() {
+                        *f = format!("queue registration over MMIO: {}", &f[6..]);
+                    }
+                    c.id = format!("{}-via-{}", prop, c.id);
+                    c.tag("mmio-registration");
+                }
+                cases.extend(m);
+            }
             // …except that a lost notification on a driver's queue is also that driver's failure: the
             // request (frame, buffer, packet) it made available never reaches a device that waits to be told
             if matches!(prop.as_str(), "C14" | "C15" | "C16" | "C17" | "C18" | "C19" | "C20") {
